@@ -1,6 +1,8 @@
 import Driver.Util
 import Zeno.Model.Extract
 import Zeno.Gen.Extractors
+import Zeno.Model.Html
+import Zeno.Gen.Html
 namespace Driver.Extract
 open Lean Zeno Zeno.Model.Extract
 
@@ -52,6 +54,22 @@ def step (base : Bool) (_ : Unit) (j : Json) : Except String (Unit × String) :=
     let show1 : Link → String
       | .object k => "obj:" ++ k | .nextMarker m => "marker:" ++ m | .nextToken t => "token:" ++ t | .subfolder q => "prefix:" ++ q
     pure ((), jarr (sortStrs (links.map show1)))
+  | "html" =>
+    let H := if base then Zeno.Base.Html.facts else Zeno.Gen.Html.facts
+    let els : List Zeno.Model.Html.El := match j.getObjVal? "els" with
+      | .ok (.arr a) => a.toList.map (fun e =>
+          { tag := strD e "tag" "", text := strD e "text" "",
+            attrs := match e.getObjVal? "attrs" with
+              | .ok (.arr kv) => kv.toList.filterMap (fun p => match p with
+                  | .arr q => if q.size == 2 then (do pure ((← q[0]!.getStr?.toOption), (← q[1]!.getStr?.toOption))) else none
+                  | _ => none)
+              | _ => [] })
+      | _ => []
+    let disabled : List String := match j.getObjVal? "disableHTMLTag" with
+      | .ok (.arr a) => a.toList.filterMap (fun e => e.getStr?.toOption)
+      | _ => []
+    let cfg : Zeno.Model.Html.Cfg := { disabledTags := disabled, captureAlternate := boolD j "captureAlternatePages" false }
+    pure ((), s!"assets={jarr (Zeno.Model.Html.htmlAssets H cfg els)} outlinks={jarr (Zeno.Model.Html.htmlOutlinks cfg els)}")
   | _ => throw s!"bad op {op}"
 
 end Driver.Extract
